@@ -220,9 +220,7 @@ def CompR.init (inner : ι) : Except Err (CompR ι) :=
         | .ok (i, tbl) =>
           match parseSizes tbl with
           | .error e => .error e
-          | .ok z =>
-            if z.csizes = [] then .error .deser else
-            .ok ⟨i, some z, 0, .ready⟩
+          | .ok z => .ok ⟨i, some z, 0, .ready⟩
 
 /-- start offset of block `k` in the inner stream -/
 def Sizes.startOf (z : Sizes) (k : Nat) : Nat := (z.csizes.take k).sum
